@@ -70,6 +70,9 @@ def run(tier: str, seed: int, rep: Report, model: Model) -> dict:
                         if rnd.random() < 0.8:
                             c["args"].pop(q["name"])
                 rep.streams["with_omitted_defaults"] = rep.streams.get("with_omitted_defaults", 0) + 1
+            from harness import impl as _I
+            if _I.maybe_lazy(rnd, c, 0.2).get("lazy_hints"):
+                rep.streams["forward_reference_hints"] = rep.streams.get("forward_reference_hints", 0) + 1
             cases.append(c)
             where.append(w)
     # the body returns its own argument: the same object is demanded to fit the return annotation as well
